@@ -151,6 +151,45 @@ fn has_exotic_trailing_blank(src: &str) -> bool {
     false
 }
 
+/// KF-F class (F19): a content block whose markup starts, on the bracket's own line, with a list/enum/term
+/// item and spans several lines (continuation lines are nested by the indent unit, the first item is not).
+fn has_item_on_bracket_line(n: &SyntaxNode) -> bool {
+    if n.kind() == K::ContentBlock {
+        if let Some(m) = n.children().find(|c| c.kind() == K::Markup) {
+            let first = m.children().find(|c| c.kind() != K::Space).map(|c| c.kind());
+            if matches!(first, Some(K::ListItem) | Some(K::EnumItem) | Some(K::TermItem))
+                && m.clone().into_text().contains('\n')
+            {
+                return true;
+            }
+        }
+    }
+    n.children().any(has_item_on_bracket_line)
+}
+
+/// KF-G class (F20): a forced line break `\` followed only by blanks and then a token that starts with
+/// ASCII punctuation: dropping the blanks turns `\ )` into the escape `\)`.
+fn has_linebreak_before_punct(root: &SyntaxNode) -> bool {
+    let mut ls = Vec::new();
+    obs::leaves(root, &mut ls);
+    for i in 0..ls.len() {
+        if ls[i].kind() == K::Linebreak {
+            let mut j = i + 1;
+            while j < ls.len() && matches!(ls[j].kind(), K::Space | K::BlockComment | K::LineComment) {
+                j += 1;
+            }
+            if j > i + 1 && j < ls.len() {
+                if let Some(c) = ls[j].text().chars().next() {
+                    if c.is_ascii_punctuation() {
+                        return true;
+                    }
+                }
+            }
+        }
+    }
+    false
+}
+
 pub fn run(w: usize, t: usize, reorder: bool, src: &str) -> String {
     let mut f: Vec<String> = Vec::new();
     let source = Source::detached(src.to_string());
@@ -165,6 +204,8 @@ pub fn run(w: usize, t: usize, reorder: bool, src: &str) -> String {
     f.push(format!("kfb={}", has_block_comment_near_item(root, false) as u8));
     f.push(format!("kfc={}", has_empty_term(root) as u8));
     f.push(format!("kfe={}", has_exotic_trailing_blank(src) as u8));
+    f.push(format!("kff={}", has_item_on_bracket_line(root) as u8));
+    f.push(format!("kfg={}", has_linebreak_before_punct(root) as u8));
     let kfd = obs::obs_off(root).iter().any(|x| matches!(x, Some((_, t)) if t.contains('\n')));
     f.push(format!("kfd={}", kfd as u8));
     typstyle_core::verif_hooks::reset();
